@@ -1085,9 +1085,88 @@ def _loop_sources(body, pars, consts):
     return body, changed[0]
 
 
+def _parse(repo, rel):
+    tree = parse(repo, rel)
+    tree._repo, tree._rel = repo, rel                        # lets the normaliser follow helpers imported from the package
+    return tree
+
+
+_READ_AS_CALLS = {"get_dtype"}                               # imported functions the reader wants to SEE called
+
+
+def _import_map(tree, rel):
+    """name -> what a top-level import statement binds it to (absolute module path [, imported name])"""
+    pkg = rel[:-3].split("/")[:-1] if not rel.endswith("__init__.py") else rel.split("/")[:-1]
+    out = {}
+    for st in tree.body:
+        if isinstance(st, ast.Import):
+            for a in st.names:
+                out[a.asname or a.name.split(".")[0]] = ("module", a.name if a.asname else a.name.split(".")[0])
+        elif isinstance(st, ast.ImportFrom):
+            base = pkg[:len(pkg) - (st.level - 1)] if st.level else []
+            mod = ".".join(base + (st.module.split(".") if st.module else []))
+            for a in st.names:
+                out[a.asname or a.name] = ("from", mod, a.name)
+    return out
+
+
+def _foreign_def(repo, mod, name, depth=0):
+    """(FunctionDef, its module's tree, rel) of `name` imported from module `mod` of the package under `repo`; follows
+    re-exports (`from .misc import name`) a few levels; None when it is not a plain function found there"""
+    for rel in (mod.replace(".", "/") + ".py", mod.replace(".", "/") + "/__init__.py"):
+        if (repo / rel).is_file():
+            break
+    else:
+        return None
+    try:
+        tree = ast.parse((repo / rel).read_text())
+    except (SyntaxError, OSError, UnicodeDecodeError):
+        return None
+    binds = [st for st in tree.body if (isinstance(st, (ast.FunctionDef, ast.AsyncFunctionDef, ast.ClassDef)) and st.name == name)
+             or any(isinstance(n, ast.Name) and n.id == name and not isinstance(n.ctx, ast.Load) for n in ast.walk(st)
+                    if not isinstance(st, (ast.FunctionDef, ast.AsyncFunctionDef, ast.ClassDef)))]
+    if len(binds) == 1 and isinstance(binds[0], ast.FunctionDef):
+        return binds[0], tree, rel
+    if not binds and depth < 3:
+        m = _import_map(tree, rel).get(name)
+        if m is not None and m[0] == "from":
+            return _foreign_def(repo, m[1], m[2], depth + 1)
+    return None
+
+
+def _foreign_helpers(tree):
+    """helpers imported from other modules of the package, usable for inlining: the function's free names must mean the
+    same thing in this module (builtins, or bound by the same import in both modules)"""
+    import builtins
+    repo, rel = getattr(tree, "_repo", None), getattr(tree, "_rel", None)
+    if repo is None:
+        return {}
+    here, out = _import_map(tree, rel), {}
+    for nm, m in here.items():
+        if m[0] != "from" or nm in _READ_AS_CALLS or m[2] in _READ_AS_CALLS:
+            continue
+        found = _foreign_def(repo, m[1], m[2])
+        if found is None:
+            continue
+        f, ftree, frel = found
+        there = _import_map(ftree, frel)
+        a = f.args
+        local = {x.arg for x in a.args + a.kwonlyargs + a.posonlyargs} | {x.arg for x in (a.vararg, a.kwarg) if x}
+        local |= {n.id for n in ast.walk(f) if isinstance(n, ast.Name) and not isinstance(n.ctx, ast.Load)}
+        local |= {n.name for n in ast.walk(f) if isinstance(n, ast.ExceptHandler) and n.name}
+        free = {n.id for st in f.body for n in ast.walk(st) if isinstance(n, ast.Name) and isinstance(n.ctx, ast.Load)} - local
+        free |= {n.id for d in list(a.defaults) + [d for d in a.kw_defaults if d is not None] for n in ast.walk(d) if isinstance(n, ast.Name)}
+        if all(hasattr(builtins, x) or (x in there and there[x] == here.get(x)) for x in free):
+            g = copy.deepcopy(f)
+            g.name = nm
+            out[nm] = g
+    return out
+
+
 def _normalised(tree, fname, keep):
     fn = find_func(tree, fname)
-    funcs = {n.name: n for n in tree.body if isinstance(n, ast.FunctionDef) and n.name != fname}
+    funcs = _foreign_helpers(tree)
+    funcs.update({n.name: n for n in tree.body if isinstance(n, ast.FunctionDef) and n.name != fname})
     pars = [a.arg for a in fn.args.args + fn.args.kwonlyargs]
     counter = [0]
     body = _simplify(copy.deepcopy(body_no_doc(fn)), funcs, set(keep), counter)
@@ -1499,16 +1578,16 @@ def _s(x):
 
 def wrappers(repo: Path) -> str:
     base = "pyxel/models/readout_electronics/"
-    a, _ = _wrapper(parse(repo, base + "simple_adc.py"), "simple_adc", "apply_simple_adc",
+    a, _ = _wrapper(_parse(repo, base + "simple_adc.py"), "simple_adc", "apply_simple_adc",
                     ["signal", "bit_resolution", "voltage_min", "voltage_max", "dtype"])
-    b, _ = _wrapper(parse(repo, base + "sar_adc.py"), "sar_adc", "apply_sar_adc",
+    b, _ = _wrapper(_parse(repo, base + "sar_adc.py"), "sar_adc", "apply_sar_adc",
                     ["signal_2d", "num_rows", "num_cols", "min_volt", "max_volt", "adc_bits"])
-    c, g = _wrapper(parse(repo, base + "sar_adc_with_noise.py"), "sar_adc_with_noise", "apply_sar_adc_with_noise",
+    c, g = _wrapper(_parse(repo, base + "sar_adc_with_noise.py"), "sar_adc_with_noise", "apply_sar_adc_with_noise",
                     ["signal_2d", "num_rows", "num_cols", "strengths", "noises", "max_volt", "adc_bits"])
     touches = (
-        f"Definition src_simple_touch : touch := {_touch(parse(repo, base + 'simple_adc.py'), 'simple_adc', 'apply_simple_adc')}.\n"
-        f"Definition src_sar_touch : touch := {_touch(parse(repo, base + 'sar_adc.py'), 'sar_adc', 'apply_sar_adc')}.\n"
-        f"Definition src_sar0_touch : touch := {_touch(parse(repo, base + 'sar_adc_with_noise.py'), 'sar_adc_with_noise', 'apply_sar_adc_with_noise')}.\n")
+        f"Definition src_simple_touch : touch := {_touch(_parse(repo, base + 'simple_adc.py'), 'simple_adc', 'apply_simple_adc')}.\n"
+        f"Definition src_sar_touch : touch := {_touch(_parse(repo, base + 'sar_adc.py'), 'sar_adc', 'apply_sar_adc')}.\n"
+        f"Definition src_sar0_touch : touch := {_touch(_parse(repo, base + 'sar_adc_with_noise.py'), 'sar_adc_with_noise', 'apply_sar_adc_with_noise')}.\n")
     return touches + (
         f"Definition src_simple_wiring : simple_wiring := {{| sw_signal := {_s(a['signal'])}; sw_bits := {_s(a['bit_resolution'])}; "
         f"sw_vmin := {_s(a['voltage_min'])}; sw_vmax := {_s(a['voltage_max'])}; sw_dtype := {_dt(a['dtype'])}; "
